@@ -321,12 +321,13 @@ cuts off the configuration slot … -/
 theorem C10_counter_pop :
     (run (plan Layout.checkThenLock noPol) (init one twoPops) badSched).fault = some .cfgLost := by decide
 
-/-- … whereas neither sequential order of the two calls faults: the outcome matches no
-sequential execution. -/
+/-- … whereas neither sequential order of the two calls faults (the first `Pop` gets the element,
+the second gets `(nil, false)`, the stack ends empty): the outcome matches no sequential execution. -/
 theorem C10_counter_pop_seq :
-    (match one.run noPol [.pop, .pop] with
-     | .ok (s, outs) => s.xs.length == 0 && outs.map (·.ok) == [true, false]
-     | .error _ => false) = true := by decide
+    ∀ order ∈ [[((0 : Tid), ListOp.pop), (1, ListOp.pop)], [(1, ListOp.pop), (0, ListOp.pop)]],
+      (match one.run noPol (order.map (·.2)) with
+       | .ok (s, outs) => s.xs.length == 0 && outs.map (·.ok) == [true, false]
+       | .error _ => false) = true := by decide
 
 /-- with the lock-first layout the same schedule is harmless -/
 theorem C10_counter_pop_fixed :
